@@ -26,6 +26,7 @@
 //!  * C14.decision.ttl_overlap  the same predicate in states where one (entity, secret) pair holds an
 //!                            expired TTL grant AND another live grant (the live one must keep working,
 //!                            the expired one must not).
+//!                            Also receives the availability half of the F7 cases (see C14.decision.ttl_stack).
 //!  * C14.revoke.immediate    (a) the op directly after a successful revoke / delete, by a requester
 //!                            whose access dropped below the op's level because of it: Err, values
 //!                            untouched, get_permission shows the reduced level; for list: the name is
@@ -67,6 +68,32 @@
 //!                            that entity / by a member of it as the first call after the revoke: denied on the
 //!                            revoked secret ("revoking ... removes the ability at once"), still allowed on the other
 //!                            secret, whole view == ghost view.
+//!  * C14.decision.ttl_stack  BLIND sequences (F7): TWO time-limited grants on ONE (entity, S0) pair, entity = alice or team
+//!                            (requester alice through MEMBER), with different lifetimes and every pair of levels: expired
+//!                            (0 s) then live (3600 s) and the reverse order -- both by `grant_with_ttl`, or the first / the
+//!                            second one by `delegate(root, entity, [S0], level, ttl)` --, both live (3600 s / 7200 s in both
+//!                            orders) and both expired; then as the FIRST call each of the 14 ops of `first_ops`.  The
+//!                            predicate is the one of C14.decision.group_ttl (result == spec decision with expired grants
+//!                            dead, whole view == ghost view) but booked by DIRECTION: under this id the SECURITY direction
+//!                            (a call is allowed / a value or name is returned / `get_permission` shows a level that no live
+//!                            grant covers: "expiring ... removes the ability at once" -- e.g. expired Admin + live Read:
+//!                            rotate / set / delete / grant denied, get allowed).  The AVAILABILITY direction (what the live
+//!                            grant covers is denied or missing from the view) is, in the states in which the pair holds an
+//!                            expired AND a live grant, exactly the clause of C14.decision.ttl_overlap and is booked there
+//!                            (case JSON marked `"runner": "blind_ttl_stack"`); in the other states (both live / both
+//!                            expired) it stays under this id.  After a wrongly denied call the view is compared with the
+//!                            ghost view before the call.
+//!  * C14.delegate.per_secret BLIND sequences (F8), 3 secrets: ONE `delegate(parent, child, [list], level, ttl)` whose list
+//!                            mixes secrets on which the parent (bob: direct grants; alice: through team) holds nothing / Read
+//!                            / Write / Admin / an EXPIRED time-limited Admin: all 125 standing vectors over [S0,S1,S2] x 3
+//!                            levels (permanent; ttl 3600 s and 0 s for the vectors over {nothing, Read, Admin}), the sub-list
+//!                            [S1,S0] with S2 (parent: Admin) left out, root as the parent.  A secret is COVERED iff it exists
+//!                            and the parent holds a live grant of >= level on it.  Contract: no secret covered => Err; all
+//!                            covered at Admin / parent root => Ok; otherwise the call is either refused as a whole (nothing
+//!                            changes) or delegates exactly the covered secrets -- the ghost follows the result, and the whole
+//!                            view (5 entities x 3 secrets + 3 values) must equal it: never a grant on an uncovered secret,
+//!                            nothing for a secret outside the list.  Then, each as the first call after the delegate, get and
+//!                            rotate by the child on every secret (decision + whole view).
 //!    `delegate(parent, child, [secret], level, None)` is treated as a grant-type op: it creates an access edge
 //!    child -> secret of `level`.  Its outcome is only fixed by the text when the parent is root, holds Admin (every
 //!    reading allows) or holds nothing (every reading denies); otherwise the decision is left unspecified.
@@ -108,30 +135,35 @@ fn value(i: u8) -> String {
         _ => big(65_532),
     }
 }
-fn names(class: u8) -> [String; 2] {
+/// number of secret slots of the ghost / view arrays; a configuration uses the first `Cfg::nsec` (2 or 3) of them
+const NS: usize = 3;
+fn names(class: u8) -> [String; NS] {
     match class {
-        0 => ["k".into(), "j".into()],
-        1 => ["prod/db-password".into(), "prod/api-key-016".into()],
-        _ => ["секрет/密钥-🔑".into(), "ключ/第二-🗝".into()],
+        0 => ["k".into(), "j".into(), "i".into()],
+        1 => ["prod/db-password".into(), "prod/api-key-016".into(), "prod/tls-key-0016".into()],
+        _ => ["секрет/密钥-🔑".into(), "ключ/第二-🗝".into(), "тайна/第三-🔐".into()],
     }
 }
 
 #[derive(Clone, Copy, PartialEq, Debug)]
-struct Cfg { chain: u8, policy: u8, names: u8 }
+struct Cfg { chain: u8, policy: u8, names: u8, /** secrets in play (2; 3 in the delegate-list family): the view covers exactly these */ nsec: u8 }
 impl Cfg {
     fn pol(&self) -> (usize, usize, usize) {
         match self.policy { 0 => (1, 2, 10), 1 => (usize::MAX, usize::MAX, usize::MAX), _ => (1, 1, 2) }
     }
     fn to_json(&self) -> Value {
         let (p, n) = (["default", "none", "tight(1,1,2)"][self.policy as usize], ["1B", "16B", "utf8"][self.names as usize]);
-        json!({"chain": self.chain, "policy": p, "names": n})
+        let mut j = json!({"chain": self.chain, "policy": p, "names": n});
+        if self.nsec != 2 { j["secrets"] = json!(self.nsec); }
+        j
     }
     fn from_json(v: &Value) -> Cfg {
         let p = v["policy"].as_str().unwrap_or("default");
         let n = v["names"].as_str().unwrap_or("16B");
         Cfg { chain: v["chain"].as_u64().unwrap_or(0) as u8,
               policy: if p == "default" { 0 } else if p == "none" { 1 } else { 2 },
-              names: if n == "1B" { 0 } else if n == "16B" { 1 } else { 2 } }
+              names: if n == "1B" { 0 } else if n == "16B" { 1 } else { 2 },
+              nsec: if v["secrets"].as_u64() == Some(3) { 3 } else { 2 } }
     }
 }
 
@@ -152,6 +184,8 @@ enum Op {
     Ver { by: u8, s: u8, kind: u8 },
     /// `delegate(by, to, [s], lvl, None)`: grant-type op, `by` is the delegating parent
     Delegate { by: u8, to: u8, s: u8, lvl: u8 },
+    /// `delegate(by, to, [ss...], lvl, ttl)`: ONE call over a LIST of secrets, optionally time-limited (ttl in seconds)
+    DelegateMany { by: u8, to: u8, ss: Vec<u8>, lvl: u8, ttl: Option<u64> },
 }
 const VER_S: [&str; 3] = ["current_version", "list_versions", "get_version"];
 const LVL_S: [&str; 4] = ["none", "R", "W", "A"];
@@ -171,6 +205,7 @@ impl Op {
             Op::Member { from, to } => json!(["member", e(from), e(to)]),
             Op::Ver { by, s, kind } => if *kind == 2 { json!([VER_S[2], e(by), s, 1]) } else { json!([VER_S[*kind as usize], e(by), s]) },
             Op::Delegate { by, to, s, lvl } => json!(["delegate", e(by), e(to), s, LVL_S[*lvl as usize]]),
+            Op::DelegateMany { by, to, ss, lvl, ttl } => json!(["delegate", e(by), e(to), ss, LVL_S[*lvl as usize], ttl]),
         }
     }
     fn from_json(v: &Value) -> Result<Op, String> {
@@ -191,6 +226,10 @@ impl Op {
             "current_version" => Op::Ver { by: ent_idx(st(1)), s: nu(2), kind: 0 },
             "list_versions" => Op::Ver { by: ent_idx(st(1)), s: nu(2), kind: 1 },
             "get_version" => Op::Ver { by: ent_idx(st(1)), s: nu(2), kind: 2 },
+            "delegate" if a.get(3).map_or(false, Value::is_array) => Op::DelegateMany {
+                by: ent_idx(st(1)), to: ent_idx(st(2)),
+                ss: a[3].as_array().map(|l| l.iter().filter_map(Value::as_u64).filter(|s| (*s as usize) < NS).map(|s| s as u8).collect()).unwrap_or_default(),
+                lvl: LVL_S.iter().position(|x| *x == st(4)).unwrap_or(1) as u8, ttl: a.get(5).and_then(Value::as_u64) },
             "delegate" => Op::Delegate { by: ent_idx(st(1)), to: ent_idx(st(2)), s: nu(3), lvl: LVL_S.iter().position(|x| *x == st(4)).unwrap_or(1) as u8 },
             o => return Err(format!("unknown op {o}")),
         })
@@ -211,7 +250,7 @@ impl Op {
 #[derive(Clone, PartialEq, Debug)]
 struct Grant { ent: u8, s: u8, lvl: u8, expired: bool }
 #[derive(Clone, PartialEq, Debug)]
-struct Model { val: [Option<u8>; 2], grants: Vec<Grant>, members: Vec<(u8, u8)>, pol: (usize, usize, usize) }
+struct Model { val: [Option<u8>; NS], grants: Vec<Grant>, members: Vec<(u8, u8)>, pol: (usize, usize, usize), /** secrets in play */ ns: u8 }
 
 fn attenuate_spec(pol: (usize, usize, usize), lvl: u8, hops: usize) -> u8 {
     if hops > pol.2 { return 0; }
@@ -246,9 +285,11 @@ impl Model {
         best
     }
     fn acc(&self, who: u8, s: u8) -> u8 { self.access(who, s, false) }
+    /// the secret exists and `parent` holds a live grant of at least `lvl` on it (root: on every existing secret)
+    fn covered(&self, parent: u8, s: u8, lvl: u8) -> bool { self.val[s as usize].is_some() && self.acc(parent, s) >= lvl }
     /// an expired grant makes a difference for somebody
     fn ttl_material(&self) -> bool {
-        (1..6u8).any(|w| (0..2u8).any(|s| self.access(w, s, true) != self.access(w, s, false)))
+        (1..6u8).any(|w| (0..self.ns).any(|s| self.access(w, s, true) != self.access(w, s, false)))
     }
     /// some (entity, secret) pair holds an expired TTL grant and another live grant
     fn ttl_overlap(&self) -> bool {
@@ -268,6 +309,11 @@ impl Model {
             Op::Revoke { from, s, .. } => self.grants.retain(|g| !(g.ent == from && g.s == s)),
             Op::Member { from, to } => if !self.members.contains(&(from, to)) { self.members.push((from, to)); },
             Op::Delegate { to, s, lvl, .. } => self.grants.push(Grant { ent: to, s, lvl, expired: false }),
+            // only the COVERED secrets (the parent holds a live grant of >= lvl on them, judged in the state before the call)
+            Op::DelegateMany { by, to, ref ss, lvl, ttl } => {
+                let cov: Vec<u8> = ss.iter().copied().filter(|&s| self.covered(by, s, lvl)).collect();
+                for s in cov { self.grants.push(Grant { ent: to, s, lvl, expired: ttl == Some(0) }); }
+            },
             Op::Get { .. } | Op::List { .. } | Op::Ver { .. } => {},
         }
     }
@@ -288,35 +334,49 @@ impl Model {
                 else if by == ROOT || self.acc(by, s) >= 3 { Some(true) }
                 else if self.acc(by, s) < lvl { Some(false) } else { None }
             },
+            // a LIST of secrets.  Fixed by the text: no secret covered => denied; every secret covered at Admin (or root
+            // on existing secrets) => allowed.  Otherwise (some secrets not covered, or covered below Admin) None: the
+            // call is either refused as a whole (nothing changes) or delegates exactly the covered secrets (`apply`);
+            // the ghost follows the result and the view must equal that ghost -- never a grant on an uncovered secret.
+            Op::DelegateMany { by, to, ref ss, lvl, .. } => {
+                if ss.is_empty() { None }
+                else if by == to { if by == ROOT { None } else { Some(false) } }
+                else if by == ROOT && ss.iter().any(|s| !ex(*s)) { None }
+                else if !ss.iter().any(|s| self.covered(by, *s, lvl)) { Some(false) }
+                else if ss.iter().all(|s| self.covered(by, *s, 3)) { Some(true) }
+                else { None }
+            },
         }
     }
-    fn listed(&self, by: u8, pat: u8, nm: &[String; 2]) -> Vec<String> {
-        let mut r: Vec<String> = (0..2u8).filter(|&s| self.val[s as usize].is_some() && self.acc(by, s) >= 1)
+    fn listed(&self, by: u8, pat: u8, nm: &[String; NS]) -> Vec<String> {
+        let mut r: Vec<String> = (0..self.ns).filter(|&s| self.val[s as usize].is_some() && self.acc(by, s) >= 1)
             .filter(|&s| pat == 0 || pat == 3 || (pat == 1 && s == 0) || (pat == 2 && s == 1))
             .map(|s| nm[s as usize].clone()).collect();
         r.sort();
         r
     }
     fn view(&self) -> View {
-        let mut perm = [[0u8; 2]; 5];
-        for w in 1..6u8 { for s in 0..2u8 { perm[(w - 1) as usize][s as usize] = self.acc(w, s); } }
-        View { perm, vals: [self.val[0].map(value), self.val[1].map(value)] }
+        let mut perm = [[0u8; NS]; 5];
+        for w in 1..6u8 { for s in 0..self.ns { perm[(w - 1) as usize][s as usize] = self.acc(w, s); } }
+        let mut vals: [Option<String>; NS] = Default::default();
+        for s in 0..self.ns as usize { vals[s] = self.val[s].map(value); }
+        View { perm, vals }
     }
 }
 
 #[derive(PartialEq, Debug)]
-struct View { perm: [[u8; 2]; 5], vals: [Option<String>; 2] }
+struct View { perm: [[u8; NS]; 5], vals: [Option<String>; NS] }
 fn short(s: &str) -> String { if s.len() > 40 { format!("<{} bytes>", s.len()) } else { s.to_string() } }
 impl View {
     /// `self` is the real view after the call; `spec` is the ghost view (lab = "spec") or the real view before the call (lab = "before")
     fn diff(&self, spec: &View, lab: &str) -> String {
         let mut d = vec![];
-        for w in 0..5 { for s in 0..2 {
+        for w in 0..5 { for s in 0..NS {
             if self.perm[w][s] != spec.perm[w][s] {
                 d.push(format!("get_permission({},S{s}) real {} / {lab} {}", ENT_S[w + 1], LVL_S[self.perm[w][s] as usize], LVL_S[spec.perm[w][s] as usize]));
             }
         } }
-        for s in 0..2 {
+        for s in 0..NS {
             if self.vals[s] != spec.vals[s] {
                 d.push(format!("value(S{s}) real {:?} / {lab} {:?}", self.vals[s].as_deref().map(short), spec.vals[s].as_deref().map(short)));
             }
@@ -326,7 +386,7 @@ impl View {
 }
 
 // ---------------------------------------------------------------- real side
-struct Sys { vault: Vault, store: TensorStore, nm: [String; 2] }
+struct Sys { vault: Vault, store: TensorStore, nm: [String; NS], ns: usize }
 
 fn build(cfg: &Cfg) -> Sys {
     let store = TensorStore::new();
@@ -337,7 +397,7 @@ fn build(cfg: &Cfg) -> Sys {
     c.argon2_time_cost = 1;
     c.argon2_parallelism = 1;
     let vault = Vault::new(b"c14-master-key-0123456789abcdef!", graph, store.clone(), c).expect("Vault::new");
-    Sys { vault, store, nm: names(cfg.names) }
+    Sys { vault, store, nm: names(cfg.names), ns: cfg.nsec as usize }
 }
 fn node_of(g: &GraphEngine, key: &str) -> u64 {
     if let Ok(ns) = g.find_nodes_by_property("entity_key", &PropertyValue::String(key.to_string())) {
@@ -394,16 +454,22 @@ impl Sys {
                 _ => v.get_version(e(by), n(s), 1),
             }),
             Op::Delegate { by, to, s, lvl } => Out::Unit(v.delegate(e(by), e(to), &[n(s)], perm_of(lvl), None).map(|_| ())),
+            Op::DelegateMany { by, to, ref ss, lvl, ttl } => {
+                let l: Vec<&str> = ss.iter().map(|s| n(*s)).collect();
+                Out::Unit(v.delegate(e(by), e(to), &l, perm_of(lvl), ttl.map(Duration::from_secs)).map(|_| ()))
+            },
         }
     }
     fn view(&self) -> View {
-        let mut perm = [[0u8; 2]; 5];
-        for w in 1..6u8 { for s in 0..2usize { perm[(w - 1) as usize][s] = lvl_of(self.vault.get_permission(ENT[w as usize], &self.nm[s])); } }
+        let mut perm = [[0u8; NS]; 5];
+        for w in 1..6u8 { for s in 0..self.ns { perm[(w - 1) as usize][s] = lvl_of(self.vault.get_permission(ENT[w as usize], &self.nm[s])); } }
         let val = |s: usize| match self.vault.current_version(Vault::ROOT, &self.nm[s]) {
             Err(_) => None,
             Ok(n) => Some(self.vault.get_version(Vault::ROOT, &self.nm[s], n).unwrap_or_else(|e| format!("<get_version({n}) failed: {e}>"))),
         };
-        View { perm, vals: [val(0), val(1)] }
+        let mut vals: [Option<String>; NS] = Default::default();
+        for s in 0..self.ns { vals[s] = val(s); }
+        View { perm, vals }
     }
 }
 
@@ -462,11 +528,11 @@ type Sink<'a> = &'a mut dyn FnMut(&str, bool, usize, &dyn Fn() -> String);
 /// prefix op whose outcome differs from the specification (that prefix is reported by its own case).
 fn run_seq(cfg: &Cfg, ops: &[Op], check_from: usize, sink: Sink) -> SeqRes {
     let sys = build(cfg);
-    let mut m = Model { val: [None, None], grants: vec![], members: vec![], pol: cfg.pol() };
+    let mut m = Model { val: [None; NS], grants: vec![], members: vec![], pol: cfg.pol(), ns: cfg.nsec };
     let chain = [Op::Member { from: ALICE, to: TEAM }, Op::Member { from: TEAM, to: ORG }];
     for c in chain.iter().take(cfg.chain as usize) { sys.exec(c); m.apply(c); }
     let mut vals_seen: Vec<u8> = vec![];
-    let mut created = [false; 2];
+    let mut created = [false; NS];
     let mut res = SeqRes { passed: true, changed: false, checked: 0, nontrivial: 0 };
     let mut before_prev: Option<Model> = None; // ghost view before the previous op
     let mut prev_ok: Option<Op> = None; // previous op if it really succeeded
@@ -485,7 +551,7 @@ fn run_seq(cfg: &Cfg, ops: &[Op], check_from: usize, sink: Sink) -> SeqRes {
             if allowed.is_some() && allowed != Some(real_ok) { res.passed = false; return res; }
         } else {
             res.checked += 1;
-            let by = match *op { Op::List { by, .. } => by, _ => op.target().map_or(ROOT, |t| t.0) };
+            let by = match *op { Op::List { by, .. } | Op::DelegateMany { by, .. } => by, _ => op.target().map_or(ROOT, |t| t.0) };
             if by != ROOT && !matches!(op, Op::Member { .. }) { res.nontrivial += 1; }
             // ---- decision
             let mut why = vec![];
@@ -543,7 +609,7 @@ fn run_seq(cfg: &Cfg, ops: &[Op], check_from: usize, sink: Sink) -> SeqRes {
                 }
             }
             if let (Op::List { by, .. }, Out::Names(r)) = (op, &out) {
-                let hidden: Vec<u8> = (0..2u8).filter(|&s| pre.alone(*by, s)).collect();
+                let hidden: Vec<u8> = (0..pre.ns).filter(|&s| pre.alone(*by, s)).collect();
                 if !hidden.is_empty() {
                     let good = r.as_ref().map_or(true, |l| hidden.iter().all(|&s| !l.contains(&sys.nm[s as usize]))) && vals_same && hidden.iter().all(|&s| cell(&rv, *by, s) == 0);
                     sink("C14.membership.alone", good, i, &|| format!("{} has only MEMBER edges: {} -> {}", ENT_S[*by as usize], op.to_json(), out.show()));
@@ -579,11 +645,11 @@ fn run_seq(cfg: &Cfg, ops: &[Op], check_from: usize, sink: Sink) -> SeqRes {
                 let lv = leaks(&vneedles, &image, &keys);
                 sink("C14.at_rest.value", lv.is_empty(), i, &|| format!("after {} ({}): {}", op.to_json(), out.show(), lv.join(" ; ")));
                 let mut nneedles = vec![];
-                for s in 0..2 { if created[s] { nneedles.extend(forms(&format!("name S{s}"), &sys.nm[s])); } }
+                for s in 0..sys.ns { if created[s] { nneedles.extend(forms(&format!("name S{s}"), &sys.nm[s])); } }
                 let ln = leaks(&nneedles, &image, &keys);
                 sink("C14.at_rest.name", ln.is_empty(), i, &|| format!("after {} ({}): {}", op.to_json(), out.show(), ln.join(" ; ")));
                 let mut entries: Vec<String> = sys.vault.audit_recent(100_000).map(|v| v.iter().map(|e| format!("{e:?}")).collect()).unwrap_or_default();
-                for s in 0..2 { if let Ok(v) = sys.vault.audit_log(&sys.nm[s]) { entries.extend(v.iter().map(|e| format!("{e:?}"))); } }
+                for s in 0..sys.ns { if let Ok(v) = sys.vault.audit_log(&sys.nm[s]) { entries.extend(v.iter().map(|e| format!("{e:?}"))); } }
                 let la: Vec<String> = entries.iter().flat_map(|t| vneedles.iter().filter(|(_, n)| !find_all(t.as_bytes(), n, 1).is_empty()).map(move |(l, _)| format!("{l} in audit entry {t}"))).collect();
                 sink("C14.at_rest.audit_err", la.is_empty(), i, &|| format!("after {}: {}", op.to_json(), la.join(" ; ")));
             }
@@ -597,7 +663,13 @@ fn run_seq(cfg: &Cfg, ops: &[Op], check_from: usize, sink: Sink) -> SeqRes {
 }
 
 // ---------------------------------------------------------------- blind sequences (C14.decision.group_ttl, C14.revoke.all_edges)
-const BLIND: [&str; 2] = ["C14.decision.group_ttl", "C14.revoke.all_edges"];
+const BLIND: [&str; 4] = ["C14.decision.group_ttl", "C14.revoke.all_edges", "C14.decision.ttl_stack", "C14.delegate.per_secret"];
+const O_STACK: &str = "C14.decision.ttl_stack";
+const O_OVERLAP: &str = "C14.decision.ttl_overlap";
+const O_DELEG: &str = "C14.delegate.per_secret";
+/// `runner` marker of the case JSON of the F7 family (its availability half is booked under C14.decision.ttl_overlap,
+/// whose other cases are NOT blind: the marker tells `replay` which runner produced the case)
+const RUNNER_STACK: &str = "blind_ttl_stack";
 
 /// Execute `ops` on a fresh system with NO observer call of the harness between the ops: no `view()` /
 /// `get_permission` / `get` / `list` other than the ops of the sequence themselves.  The LAST op is the checked call:
@@ -606,13 +678,13 @@ const BLIND: [&str; 2] = ["C14.decision.group_ttl", "C14.revoke.all_edges"];
 /// unreported (the sequence ending at that op is its own case).
 fn run_blind(cfg: &Cfg, ops: &[Op], ob: &str, sink: Sink) -> SeqRes {
     let sys = build(cfg);
-    let mut m = Model { val: [None, None], grants: vec![], members: vec![], pol: cfg.pol() };
+    let mut m = Model { val: [None; NS], grants: vec![], members: vec![], pol: cfg.pol(), ns: cfg.nsec };
     let chain = [Op::Member { from: ALICE, to: TEAM }, Op::Member { from: TEAM, to: ORG }];
     for c in chain.iter().take(cfg.chain as usize) { sys.exec(c); m.apply(c); }
     let mut res = SeqRes { passed: true, changed: false, checked: 0, nontrivial: 0 };
     // value of version 1 of each secret (max_versions is 5, the blind scripts write a secret at most 3 times)
-    let mut first_val: [Option<u8>; 2] = [None, None];
-    let mut writes = [0usize; 2];
+    let mut first_val: [Option<u8>; NS] = [None; NS];
+    let mut writes = [0usize; NS];
     let last = ops.len() - 1;
     for (i, op) in ops.iter().enumerate() {
         let pre = m.clone();
@@ -637,7 +709,7 @@ fn run_blind(cfg: &Cfg, ops: &[Op], ob: &str, sink: Sink) -> SeqRes {
         }
         res.checked = 1;
         res.changed = post != pre;
-        let by = match *op { Op::List { by, .. } => by, _ => op.target().map_or(ROOT, |t| t.0) };
+        let by = match *op { Op::List { by, .. } | Op::DelegateMany { by, .. } => by, _ => op.target().map_or(ROOT, |t| t.0) };
         if by != ROOT { res.nontrivial = 1; }
         let mut why = vec![];
         match (allowed, real_ok) {
@@ -658,6 +730,52 @@ fn run_blind(cfg: &Cfg, ops: &[Op], ob: &str, sink: Sink) -> SeqRes {
         // only now the observers are read
         let rv = sys.view();
         let sv = post.view();
+        if ob == O_STACK {
+            // F7: the predicate is the same (result == spec decision with expired grants dead, view == ghost view) but it is
+            // booked by DIRECTION.  Security half (C14.decision.ttl_stack): nothing is allowed / returned / held that no live
+            // grant covers.  Availability half: what the live grants cover keeps working; in a state in which one (entity,
+            // secret) pair holds an expired TTL grant AND a live grant this half is the clause of C14.decision.ttl_overlap
+            // ("the live one must keep working") and is booked there, otherwise it stays with C14.decision.ttl_stack.
+            let (mut sec, mut avail): (Vec<String>, Vec<String>) = (vec![], vec![]);
+            for w in why.drain(..) {
+                if w.starts_with("wrongly DENIED") { avail.push(w); }
+                else if w.starts_with("list returned") {
+                    if let (Op::List { by, pat }, Out::Names(Ok(l))) = (op, &out) {
+                        let want = pre.listed(*by, *pat, &sys.nm);
+                        if l.iter().any(|n| !want.contains(n)) { sec.push(w.clone()); }
+                        if want.iter().any(|n| !l.contains(n)) { avail.push(w); }
+                    }
+                } else { sec.push(w); }
+            }
+            // A wrongly DENIED call is an availability finding by itself; its effect then has to be "nothing changed", so the
+            // view is compared with the ghost view BEFORE the call (otherwise with the ghost post-view).
+            let wrongly_denied = allowed == Some(true) && !real_ok;
+            let (refv, lab) = (if wrongly_denied { pre.view() } else { sv }, "spec");
+            let note = if wrongly_denied { " [spec = the view before the call: it was denied]" } else { "" };
+            let (mut more, mut less) = (vec![], vec![]);
+            for w in 0..5 { for s in 0..NS {
+                let (r, e) = (rv.perm[w][s], refv.perm[w][s]);
+                let cell = format!("get_permission({},S{s}) real {} / {lab} {}", ENT_S[w + 1], LVL_S[r as usize], LVL_S[e as usize]);
+                if r > e { more.push(cell); } else if r < e { less.push(cell); }
+            } }
+            // (same wording as the whole-view difference of the other obligations: "post-view differs: <cell> real x / spec y")
+            if !more.is_empty() { sec.push(format!("post-view differs: {} (MORE than the live grants give){note}", more.join("; "))); }
+            if !less.is_empty() { avail.push(format!("post-view differs: {} (LESS than the live grants give){note}", less.join("; "))); }
+            if rv.vals != refv.vals {
+                sec.push(format!("post-view differs: {}{note}", View { perm: refv.perm, vals: rv.vals.clone() }.diff(&refv, lab)));
+            }
+            let overlap = pre.ttl_overlap() || post.ttl_overlap();
+            let head = format!("op#{i} {} -> {} (no observer call since the start of the sequence); spec decision {:?}", op.to_json(), out.show(), allowed);
+            if overlap {
+                sink(O_STACK, sec.is_empty(), i, &|| format!("{head}; security direction (something works / is held that no live grant covers): {}", sec.join(" | ")));
+                sink(O_OVERLAP, avail.is_empty(), i, &|| format!("{head}; availability direction (the live grant of a pair that also holds an expired TTL grant must keep working): {}", avail.join(" | ")));
+            } else {
+                sec.extend(avail.drain(..));
+                sink(O_STACK, sec.is_empty(), i, &|| format!("{head}; {}", sec.join(" | ")));
+            }
+            res.passed = sec.is_empty() && avail.is_empty();
+            return res;
+        }
         if rv != sv { why.push(format!("post-view differs: {}", rv.diff(&sv, "spec"))); }
         let ok = why.is_empty();
         sink(ob, ok, i, &|| format!("op#{i} {} -> {} (no observer call since the start of the sequence); spec decision {:?}; {}", op.to_json(), out.show(), allowed, why.join(" | ")));
@@ -685,7 +803,7 @@ fn family_group_ttl(rep: &mut Report) {
     let base = [Op::Set { by: ROOT, s: 0, v: 1 }, Op::Grant { by: ROOT, to: BOB, s: 0, lvl: 2, ttl: None }];
     // (chain, policy, extended): extended = also the variants in which the member holds a grant of its own
     for (chain, policy, extended) in [(2u8, 0u8, true), (2, 1, false), (1, 0, false), (2, 2, false)] {
-        let cfg = Cfg { chain, policy, names: 1 };
+        let cfg = Cfg { chain, policy, names: 1, nsec: 2 };
         for group in [TEAM, ORG] {
             if group == ORG && chain < 2 { continue; }
             // own: nothing / a permanent Read of alice's own / a live 3600 s TTL Read of alice's own (its TTL entry is NOT expired)
@@ -709,7 +827,7 @@ fn family_group_ttl(rep: &mut Report) {
 
 /// C14.revoke.all_edges: see the module doc
 fn family_revoke_all(rep: &mut Report) {
-    let cfg = Cfg { chain: 2, policy: 0, names: 1 };
+    let cfg = Cfg { chain: 2, policy: 0, names: 1, nsec: 2 };
     let g = |by: u8, to: u8, lvl: u8, ttl: Option<u64>| Op::Grant { by, to, s: 0, lvl, ttl };
     // (holder of the grants, requesters that draw on them)
     for (x, requesters) in [(BOB, vec![BOB]), (TEAM, vec![ALICE, TEAM])] {
@@ -741,6 +859,99 @@ fn family_revoke_all(rep: &mut Report) {
             }
         } }
     }
+}
+
+/// C14.decision.ttl_stack (F7): TWO time-limited grants on ONE (entity, S0) pair, then the entity's / its member's first call.
+fn family_ttl_stack(rep: &mut Report) {
+    let cfg = Cfg { chain: 2, policy: 0, names: 1, nsec: 2 };
+    let run = |rep: &mut Report, ops: &[Op]| {
+        let r = run_blind(&cfg, ops, O_STACK, &mut |oid, ok, at, detail| rep.check(oid, ok, &|| {
+            let mut j = case_json(&cfg, &ops[..=at], at);
+            j["runner"] = json!(RUNNER_STACK);
+            j
+        }, detail));
+        for k in 0..r.checked { rep.eval(k < r.nontrivial); }
+    };
+    // frame: bob holds a permanent Write on S0
+    let base = [Op::Set { by: ROOT, s: 0, v: 1 }, Op::Grant { by: ROOT, to: BOB, s: 0, lvl: 2, ttl: None }];
+    // via 0: both by grant_with_ttl; 1: the FIRST-lifetime grant by delegate(root, x, [S0], lvl, ttl); 2: the SECOND one by delegate
+    let tl = |x: u8, lvl: u8, ttl: u64, deleg: bool| if deleg { Op::DelegateMany { by: ROOT, to: x, ss: vec![0], lvl, ttl: Some(ttl) } }
+                                                      else { Op::Grant { by: ROOT, to: x, s: 0, lvl, ttl: Some(ttl) } };
+    for (x, requesters) in [(ALICE, vec![ALICE]), (TEAM, vec![ALICE])] {
+        // (lifetime of the first grant, of the second grant): expired + live in both orders; both live (different lifetimes); both expired
+        for (t1, t2) in [(0u64, 3600u64), (3600, 0), (3600, 7200), (7200, 3600), (0, 0)] {
+            let mixed = (t1 == 0) != (t2 == 0);
+            if !mixed && x != ALICE { continue; }
+            for l1 in 1..=3u8 { for l2 in 1..=3u8 { for via in 0..(if mixed { 3 } else { 1 }) {
+                let mut pre = base.to_vec();
+                pre.push(tl(x, l1, t1, via == 1));
+                pre.push(tl(x, l2, t2, via == 2));
+                for &by in &requesters { for op in first_ops(by, 0, CAROL, BOB) {
+                    let mut ops = pre.clone();
+                    ops.push(op);
+                    run(rep, &ops);
+                } }
+            } } }
+        }
+    }
+}
+
+/// C14.delegate.per_secret (F8): ONE `delegate` over a LIST of secrets on which the parent's standing differs.
+fn family_delegate_list(rep: &mut Report) {
+    let cfg = Cfg { chain: 2, policy: 0, names: 1, nsec: 3 };
+    let sets = [Op::Set { by: ROOT, s: 0, v: 1 }, Op::Set { by: ROOT, s: 1, v: 2 }, Op::Set { by: ROOT, s: 2, v: 3 }];
+    // standing of the holder on a secret: 0 nothing, 1 Read, 2 Write, 3 Admin (permanent grants), 4 an EXPIRED time-limited Admin grant
+    let standing = |holder: u8, s: u8, st: u8| match st {
+        0 => None,
+        4 => Some(Op::Grant { by: ROOT, to: holder, s, lvl: 3, ttl: Some(0) }),
+        l => Some(Op::Grant { by: ROOT, to: holder, s, lvl: l, ttl: None }),
+    };
+    // the delegate call itself, then (each as the first call after it) get / rotate by the child on every secret
+    let go = |rep: &mut Report, pre: &[Op], d: Op, child: u8, follow: bool| {
+        let mut ops = pre.to_vec();
+        ops.push(d);
+        blind(rep, &cfg, &ops, O_DELEG);
+        if !follow { return; }
+        for s in 0..3u8 { for f in [Op::Get { by: child, s }, Op::Rotate { by: child, s, v: 0 }] {
+            let mut o = ops.clone();
+            o.push(f);
+            blind(rep, &cfg, &o, O_DELEG);
+        } }
+    };
+    // (a) parent bob, child carol, list [S0,S1,S2]: every standing vector x every requested level, permanent delegation
+    for v in 0..125u32 {
+        let st = [(v / 25) as u8, (v / 5 % 5) as u8, (v % 5) as u8];
+        let mut pre = sets.to_vec();
+        for s in 0..3u8 { pre.extend(standing(BOB, s, st[s as usize])); }
+        for lvl in 1..=3u8 {
+            let n_cov = st.iter().filter(|x| **x != 4 && **x >= lvl).count();
+            // follow-up calls where something is (or could be) delegated, and for a sample of the all-uncovered vectors
+            go(rep, &pre, Op::DelegateMany { by: BOB, to: CAROL, ss: vec![0, 1, 2], lvl, ttl: None }, CAROL, n_cov > 0 || v % 7 == 0);
+            // time-limited delegations (live / already expired) for the vectors over {nothing, Read, Admin}
+            if st.iter().all(|x| matches!(x, 0 | 1 | 3)) && lvl != 2 {
+                for ttl in [3600u64, 0] { go(rep, &pre, Op::DelegateMany { by: BOB, to: CAROL, ss: vec![0, 1, 2], lvl, ttl: Some(ttl) }, CAROL, n_cov > 0 && ttl == 3600); }
+            }
+        }
+    }
+    // (b) sub-lists in other orders; S2 (bob: Admin) is NOT in the list and must stay out of the child's reach
+    for v in 0..25u32 {
+        let st = [(v / 5) as u8, (v % 5) as u8];
+        let mut pre = sets.to_vec();
+        for s in 0..2u8 { pre.extend(standing(BOB, s, st[s as usize])); }
+        pre.extend(standing(BOB, 2, 3));
+        for lvl in 1..=3u8 { go(rep, &pre, Op::DelegateMany { by: BOB, to: CAROL, ss: vec![1, 0], lvl, ttl: None }, CAROL, true); }
+    }
+    // (c) the parent's standing comes from a GROUP (alice -MEMBER-> team, 2 hops: Admin of team = Write for alice under the default policy)
+    for st in [[3u8, 2, 0], [3, 3, 1], [2, 0, 3], [1, 3, 3], [3, 4, 3]] {
+        let mut pre = sets.to_vec();
+        for s in 0..3u8 { pre.extend(standing(TEAM, s, st[s as usize])); }
+        for lvl in 1..=3u8 { go(rep, &pre, Op::DelegateMany { by: ALICE, to: CAROL, ss: vec![0, 1, 2], lvl, ttl: None }, CAROL, true); }
+    }
+    // (d) root as the parent (covers every existing secret): must succeed; and a parent with Admin everywhere
+    for lvl in 1..=3u8 { for ttl in [None, Some(3600u64), Some(0)] {
+        go(rep, &sets, Op::DelegateMany { by: ROOT, to: CAROL, ss: vec![0, 1, 2], lvl, ttl }, CAROL, true);
+        go(rep, &sets, Op::DelegateMany { by: ROOT, to: TEAM, ss: vec![2, 0], lvl, ttl }, ALICE, true);
+    } }
 }
 
 // ---------------------------------------------------------------- enumeration
@@ -815,7 +1026,9 @@ fn alpha_pol() -> Vec<Op> {
     a
 }
 
-const OBLIGATIONS: [(&str, &str); 11] = [
+const OBLIGATIONS: [(&str, &str); 13] = [
+    ("C14.decision.ttl_stack", "Vault::{rotate,set,delete,grant*,delegate,revoke,get,list,*_version} as the first call after TWO grant_with_ttl / delegate(ttl) on one (entity, secret) with different lifetimes (security direction)"),
+    ("C14.delegate.per_secret", "Vault::delegate(parent, child, [list of secrets], level, ttl) + the child's next call"),
     ("C14.decision.group_ttl", "Vault::{rotate,set,delete,current_version,list_versions,get_version,grant_with_permission,grant_with_ttl,delegate,revoke,get,list} as the first call after grant_with_ttl to a group"),
     ("C14.revoke.all_edges", "Vault::revoke after several grant-type ops (grant, grant_with_permission, grant_with_ttl, delegate) on one (entity, secret) + the next op"),
     ("C14.decision", "Vault::{get,list,set,rotate,delete,grant,grant_with_permission,grant_with_ttl,revoke,get_permission}"),
@@ -853,7 +1066,12 @@ pub fn run(tier: Tier, seed: u64) -> Report {
          alice (member), by team (member of org) and by the group itself. \
          F6 (blind): 11 combinations of 1..3 grant-type ops on one (entity, S0) pair, entity in {{bob, team}} (R then W, W then R, A twice, R+W+A, R + W/3600 s, A/3600 s + R, W + delegate W, \
          delegate A + R, R by root + W by carol, A by carol + delegate by carol + W by root), then ONE revoke by root / by carol (another Admin), then the revoke itself and each of the \
-         14 ops on S0 by bob / alice (member of team) / team, plus get/rotate on S1 by the same requester and get/rotate on S0 by carol (frame).{}",
+         14 ops on S0 by bob / alice (member of team) / team, plus get/rotate on S1 by the same requester and get/rotate on S0 by carol (frame). \
+         F7 (blind): two time-limited grants on one (entity, S0) pair, entity alice / team (requester alice), levels {{R,W,A}}^2, lifetimes (0 s, 3600 s) and (3600 s, 0 s) with both by \
+         grant_with_ttl or the first / the second by delegate(root, entity, [S0], level, ttl), and for alice also (3600 s, 7200 s), (7200 s, 3600 s), (0 s, 0 s); then each of the 14 ops by alice. \
+         F8 (blind, 3 secrets): delegate(bob, carol, [S0,S1,S2], level in {{R,W,A}}, permanent) for all 5^3 standings of bob on the three secrets (nothing, R, W, A, expired-TTL A), with ttl \
+         3600 s / 0 s for the 3^3 standings over {{nothing, R, A}} and levels R / A; delegate(bob, carol, [S1,S0], ..) for the 5^2 standings with bob Admin on S2; delegate(alice, carol, [S0,S1,S2], ..) \
+         with alice's standing coming from team (5 vectors); delegate(root, carol / team, ..) with ttl none / 3600 s / 0 s; after each delegate also get and rotate by the child on every secret.{}",
         core.len(),
         if thorough { format!("; F1w: the same over the wide {}-op alphabet (adds TTL grants, MEMBER insertions, more S1 ops) with length <= 2 / <= 3", wide.len()) } else { String::new() },
         if thorough { format!("all sequences of length <= 2 over the F1 alphabet, plus length <= 2 / <= 3 (same rule) over a {}-op policy alphabet", pola.len()) }
@@ -867,14 +1085,14 @@ pub fn run(tier: Tier, seed: u64) -> Report {
     let pre = vec![Op::Set { by: ROOT, s: 0, v: 1 }];
 
     // F1
-    let c1 = Cfg { chain: 2, policy: 0, names: 1 };
+    let c1 = Cfg { chain: 2, policy: 0, names: 1, nsec: 2 };
     dfs(&mut rep, &c1, &pre, &mut vec![], &core, 2, f1_max, true);
     if thorough { dfs(&mut rep, &c1, &pre, &mut vec![], &wide, 2, 3, true); }
     rep.sample(case_json(&c1, &[pre[0].clone(), Op::Grant { by: ROOT, to: TEAM, s: 0, lvl: 3, ttl: None }, Op::Rotate { by: ALICE, s: 0, v: 3 }], 2));
     // F2
     for chain in 0..3 { for policy in 0..3 {
         if chain == 2 && policy == 0 { continue; }
-        let c = Cfg { chain, policy, names: 1 };
+        let c = Cfg { chain, policy, names: 1, nsec: 2 };
         if thorough { dfs(&mut rep, &c, &pre, &mut vec![], &core, 2, 2, true); dfs(&mut rep, &c, &pre, &mut vec![], &pola, 2, 3, true); }
         else { dfs(&mut rep, &c, &pre, &mut vec![], &pola, 2, 2, true); }
     } }
@@ -888,7 +1106,7 @@ pub fn run(tier: Tier, seed: u64) -> Report {
             Op::Grant { by: ROOT, to: ORG, s: 1, lvl: 3, ttl: None }, Op::Get { by: ALICE, s: 1 }, Op::Set { by: ALICE, s: 1, v: vc },
             Op::Revoke { by: ROOT, from: ALICE, s: 0 }, Op::Get { by: ALICE, s: 0 }, Op::Delete { by: ROOT, s: 1 }, Op::Get { by: ALICE, s: 1 },
         ];
-        node(&mut rep, &Cfg { chain: 2, policy: 0, names: nmc }, &script, 0);
+        node(&mut rep, &Cfg { chain: 2, policy: 0, names: nmc, nsec: 2 }, &script, 0);
     } }
     for v in [4u8, 5] {
         node(&mut rep, &c1, &[pre[0].clone(), Op::Grant { by: ROOT, to: ALICE, s: 0, lvl: 2, ttl: None }, Op::Rotate { by: ALICE, s: 0, v }, Op::Set { by: ALICE, s: 0, v }, Op::Set { by: ROOT, s: 1, v }], 0);
@@ -909,12 +1127,15 @@ pub fn run(tier: Tier, seed: u64) -> Report {
     // F5 / F6 (blind sequences)
     family_group_ttl(&mut rep);
     family_revoke_all(&mut rep);
+    // F7 / F8 (blind); they run last so that the cases recorded for the older obligations keep their order
+    family_ttl_stack(&mut rep);
+    family_delegate_list(&mut rep);
     rep.sample(case_json(&c1, &[pre[0].clone(), Op::Grant { by: ROOT, to: TEAM, s: 0, lvl: 3, ttl: Some(0) }, Op::Rotate { by: ALICE, s: 0, v: 3 }], 2));
 
     if thorough {
         let mut rng = Rng(seed ^ 0xC14);
         for _ in 0..6000 {
-            let cfg = Cfg { chain: rng.below(3) as u8, policy: rng.below(3) as u8, names: rng.below(3) as u8 };
+            let cfg = Cfg { chain: rng.below(3) as u8, policy: rng.below(3) as u8, names: rng.below(3) as u8, nsec: 2 };
             let mut ops = pre.clone();
             for _ in 0..6 { ops.push(wide[rng.below(wide.len() as u64) as usize].clone()); }
             node(&mut rep, &cfg, &ops, 1);
@@ -930,10 +1151,11 @@ pub fn replay(ob: &str, case: &Value) -> Result<String, String> {
     let at = case["at"].as_u64().map_or(ops.len() - 1, |x| x as usize).min(ops.len() - 1);
     let mut fails = vec![];
     let mut seen = 0;
-    if BLIND.contains(&ob) {
-        let r = run_blind(&cfg, &ops[..=at], ob, &mut |_, ok, _, detail| { seen += 1; if !ok { fails.push(detail()); } });
+    if BLIND.contains(&ob) || case["runner"] == RUNNER_STACK {
+        let runner = if case["runner"] == RUNNER_STACK { O_STACK } else { ob };
+        let r = run_blind(&cfg, &ops[..=at], runner, &mut |oid, ok, _, detail| { if oid == ob { seen += 1; if !ok { fails.push(detail()); } } });
         return if !fails.is_empty() { Err(fails.join(" || ")) }
-        else if seen == 0 || !r.passed { Ok(format!("obligation {ob} does not apply: a prefix op of this sequence diverged from the specification (it is its own case)")) }
+        else if seen == 0 { let _ = r; Ok(format!("obligation {ob} does not apply: a prefix op of this sequence diverged from the specification (it is its own case)")) }
         else { Ok(format!("op #{at} {} satisfies {ob} (blind sequence, view compared after the op)", ops[at].to_json())) };
     }
     run_seq(&cfg, &ops[..=at], at, &mut |oid, ok, _, detail| {
